@@ -9,6 +9,7 @@ SCRIPT = @@SCRIPT@@      # list of nodes: ("text", nlines) ("field",) ("bullets"
 L = @@L@@                # exact length of every text piece
 TL = @@TL@@              # title length
 NCP = @@NCP@@
+FILL = @@FILL@@          # concrete filler appended to every piece (long lines)
 hc.quiet_logging()
 
 
@@ -30,26 +31,26 @@ def build(w, nodes, depth, pc, ch1):
     for nd in nodes:
         k = nd[0]
         if k == "text":
-            lines = [pc.take(L) for _ in range(nd[1])]
+            lines = [(pc.take(L) + FILL) for _ in range(nd[1])]
             txt = chr(10).join(lines)
             w.text(txt)
             out = out + spec.para(depth, txt)
         elif k == "field":
-            a = pc.take(L); b = pc.take(L)
+            a = (pc.take(L) + FILL); b = (pc.take(L) + FILL)
             w.field(a, b)
             out = out + spec.field(depth, a, b)
         elif k == "bullets":
-            items = [pc.take(L) for _ in range(nd[1])]
+            items = [(pc.take(L) + FILL) for _ in range(nd[1])]
             w.bulleted_list(*items)
             out = out + spec.bullets(depth, items)
         elif k == "enum":
-            items = [pc.take(L) for _ in range(nd[1])]
+            items = [(pc.take(L) + FILL) for _ in range(nd[1])]
             w.enumerated_list(*items)
             out = out + spec.enumerated(depth, items)
         elif k == "dir":
-            name = pc.take(L); arg = pc.take(L)
+            name = (pc.take(L) + FILL); arg = (pc.take(L) + FILL)
             d = w.directive(name, arg)
-            opts = [(pc.take(L), pc.take(L)) for _ in range(nd[1])]
+            opts = [((pc.take(L) + FILL), (pc.take(L) + FILL)) for _ in range(nd[1])]
             if not nd[2]:
                 for (a, b) in opts:
                     d.option(a, b)
@@ -59,7 +60,7 @@ def build(w, nodes, depth, pc, ch1):
                     d.option(a, b)
             out = out + spec.directive(depth, name, arg, opts, [inner] if len(nd[3]) > 0 else [])
         elif k == "section":
-            t = pc.take(L)
+            t = (pc.take(L) + FILL)
             s = w.section(t)
             inner = build(s, nd[1], 0, pc, ch1)
             out = out + spec.heading(t, ch1) + inner + chr(10)
